@@ -109,6 +109,17 @@ def lib_origin(exc):
     return None
 
 
+_EX = [0, 0]
+
+
+def rng_for(s):
+    """A Random for the current generated example.  Hypothesis draws small and repeated integers on purpose,
+    so the drawn seed `s` alone gives poor diversity: mix it with the task seed and the example counter
+    (both deterministic under VERIF_SEED)."""
+    import random
+    return random.Random(mix(_EX[0], _EX[1], s))
+
+
 def deadline_passed() -> bool:
     d = float(os.environ.get("VF_DEADLINE", "0") or 0)
     return bool(d) and time.time() > d
@@ -136,12 +147,14 @@ def hyp_run(strategy, body, n, seed, stats=None, stateful=False):
         phases=[Phase.generate],
     )
     counter = [0]
+    _EX[0] = seed
 
     @hypothesis.seed(seed)
     @st
     @given(strategy)
     def t(x):
         counter[0] += 1
+        _EX[1] = counter[0]
         if counter[0] % 64 == 0 and deadline_passed():
             if stats is not None:
                 stats.budget_exhausted = True
